@@ -405,6 +405,17 @@ def fullfile_scenarios(sizes, rnd):
         tail += [{"op": "Reopen"}]
         out.append({"src": "fullfile", "u": U, "w": 3, "ps": ps, "pers": True, "emb": rnd.choice([0, 1, 5]),
                     "wb": False, "ops": [{"op": "Set", "k": U, "v": 2}, {"op": "FillFull", "v": 1}] + tail})
+    # ... and on scaled trees whose file is larger than an OS page and grows twice: filled to its very end before
+    # every reopen (file sizes that are not a multiple of the OS page size, last whole tree page in use)
+    for ps in (80, 128):
+        U = 6000
+        ms = 8 * rnd.randint(520, 700)
+        ops = [{"op": "Set", "k": U, "v": 2}, {"op": "FillFull", "v": 1}, {"op": "Reopen"}]
+        for j in range(2):
+            ops += [{"op": "Set", "k": U - 10 - j, "v": 2}, {"op": "FillFull", "v": 1}, {"op": "Reopen"}]
+        ops += [{"op": "Set", "k": U - 20, "v": 3}, {"op": "Reopen"}]
+        out.append({"src": "fullfile-scaled", "u": U, "w": 3, "ps": ps, "pers": True, "ms": ms, "emb": rnd.choice([0, 1, 5]),
+                    "wb": False, "ops": ops})
     return out
 
 
